@@ -112,7 +112,62 @@ static JV interpret(const Plan &p, const ChildOut &co) {
 
 static std::string sig_of(const JV &r) { return r.getb("violated") ? r.gets("prop") + "/" + r.gets("rule") : ""; }
 
-static JV run_once(const Plan &p) { ChildOut co = run_child(p); if (p.hdr.getb("debug")) fputs(co.err.c_str(), stderr); return interpret(p, co); }
+static JV run_single(const Plan &p) { ChildOut co = run_child(p); if (p.hdr.getb("debug")) fputs(co.err.c_str(), stderr); return interpret(p, co); }
+
+// pointers of the daemon's heap appear in routed request ids; two executions may legitimately allocate peers in a different order
+static std::string normalise_out(const std::string &hex) {
+	std::string s = hexdec(hex), o;
+	for (size_t i = 0; i < s.size();) {
+		if (s.compare(i, 3, "_0x") == 0) { size_t j = i + 3; while (j < s.size() && isxdigit((unsigned char)s[j])) j++; if (j - i - 3 >= 8) { o += "_PTR"; i = j; continue; } }
+		o += s[i++];
+	}
+	return o;
+}
+
+// C09: the canonical plan and its re-segmented, re-batched twin must produce identical output on every connection
+static JV run_pair(const Plan &a) {
+	JV ra = run_single(a);
+	if (ra.getb("violated") || ra.has("harness_error")) { ra.set("which", JV::str("A")); return ra; }
+	Plan b = derive_b(a);
+	JV rb = run_single(b);
+	if (rb.getb("violated") || rb.has("harness_error")) { rb.set("which", JV::str("B")); return rb; }
+	if (ra.has("inconclusive") || rb.has("inconclusive")) { if (!ra.has("inconclusive")) ra.set("inconclusive", JV::str(rb.gets("inconclusive"))); return ra; }
+	const JV *ea = ra.get("extra"), *eb = rb.get("extra");
+	const JV *oa = ea ? ea->get("outs") : nullptr, *ob = eb ? eb->get("outs") : nullptr;
+	std::string diff;
+	if (!oa || !ob || oa->a.size() != ob->a.size()) diff = "the two executions saw a different number of connections";
+	else for (size_t i = 0; i < oa->a.size() && diff.empty(); i++) {
+		const JV &x = oa->a[i], &y = ob->a[i];
+		std::string sx = normalise_out(x.gets("out")), sy = normalise_out(y.gets("out"));
+		if (x.getb("closed") != y.getb("closed")) diff = "connection c" + std::to_string(i) + " was " + (x.getb("closed") ? "closed" : "left open") + " with whole-message delivery but " + (y.getb("closed") ? "closed" : "left open") + " with re-segmented delivery";
+		else if (sx != sy) {
+			size_t k = 0; while (k < sx.size() && k < sy.size() && sx[k] == sy[k]) k++;
+			diff = "output on connection c" + std::to_string(i) + " differs from byte " + std::to_string(k) + ": whole-message delivery gave '" + ascii_safe(sx.substr(k > 30 ? k - 30 : 0, 110)) + "' (" + std::to_string(sx.size()) + " bytes), re-segmented delivery gave '" + ascii_safe(sy.substr(k > 30 ? k - 30 : 0, 110)) + "' (" + std::to_string(sy.size()) + " bytes)";
+		}
+	}
+	// merge statistics of both executions
+	JV out = ra;
+	JV st = JV::obj();
+	const JV *sa = ra.get("stats"), *sb = rb.get("stats");
+	if (sa && sb) {
+		for (auto &kv : sa->o) {
+			if (kv.first == "probes") { JV pr = kv.second; const JV *pb = sb->get("probes"); if (pb) for (auto &q : pb->o) { bool f = false; for (auto &z : pr.o) if (z.first == q.first) { z.second.d += q.second.d; f = true; } if (!f) pr.set(q.first, q.second); } st.set("probes", pr); }
+			else if (kv.second.t == JV::Num) st.set(kv.first, JV::num(kv.second.d + sb->getd(kv.first)));
+			else if (kv.second.t == JV::Arr) { JV arr = kv.second; const JV *ab = sb->get(kv.first); if (ab) for (auto &z : ab->a) arr.push(z); st.set(kv.first, arr); }
+			else st.set(kv.first, kv.second);
+		}
+		JV o2 = JV::obj(); for (auto &kv : out.o) if (kv.first == "stats") o2.set("stats", st); else if (kv.first != "extra") o2.set(kv.first, kv.second); out = o2;
+	}
+	out.put("trace", JV::str(ra.gets("trace") + rb.gets("trace")));
+	if (!diff.empty()) {
+		JV v = JV::obj(); for (auto &kv : out.o) if (kv.first != "violated") v.set(kv.first, kv.second);
+		v.set("violated", JV::boolean(true)); v.set("prop", JV::str("C09")); v.set("rule", JV::str("output-depends-on-segmentation")); v.set("detail", JV::str(diff));
+		return v;
+	}
+	return out;
+}
+
+static JV run_once(const Plan &p) { if (p.profile == "c09") return run_pair(p); return run_single(p); }
 
 static int g_shrink_budget = 0;
 static bool still_fails(const Plan &p, const std::string &sig) {
@@ -221,6 +276,12 @@ int main(int argc, char **argv) {
 		JV opts = JV::obj(); if (argc >= 5) json_parse(argv[4], opts);
 		Plan p = generate_plan(argv[2], strtoull(argv[3], nullptr, 10), opts);
 		printf("%s\n", p.to_json().dump().c_str());
+		return 0;
+	}
+	if (mode == "--derive" && argc >= 3) {
+		Plan p; JV whole;
+		if (!load_plan(argv[2], p, whole)) return 2;
+		printf("%s\n", derive_b(p).to_json().dump().c_str());
 		return 0;
 	}
 	if (mode == "--replay" && argc >= 3) {
